@@ -350,3 +350,11 @@ def replay(ctx, payload):
     for f in ctx.failures:
         print("  failure:", f["key"], "-", f["what"])
     return not ctx.failures
+
+
+CLAIM = dict(
+    text="Lean 4 proof (all patterns, all values, no size bound) on a regex-engine model of the emitted re.match that parse_<r>_path(<r>_path(vals)) returns exactly the segments and rebuilding returns the path, under an explicit decidable hypothesis `Good` (values non-empty, newline-free, not containing the first character of the literal that follows); wildcard and non-match theorems; counterexample theorems for what `Good` excludes. Tie: T1 bridge of PATH_ARG_RE/common resources, T2 AST equality between the model regex and CPython's parse of the real path_regex_str, T3 the static helpers of the imported emitted client vs the model, plus a model-independent oracle.",
+    technique='Lean 4 theorem (induction on pattern segments over a CPS backtracking-regex model) + translator bridge + differential T2/T3',
+    design='7.19',
+    note='Hypotheses of parse_build_partial exclude empty and newline-containing values: both fail on the real code and are listed in known_findings.json.',
+)
